@@ -15,9 +15,15 @@ capturing x followed, later in the same block, by a binding of x: the pinned com
 "unknown freevar x during emit") in three shapes, and the two neighbouring shapes that do compile
 (binding in an inner block / before the closure).  The generator avoids the aborting shape (weight
 late_shadow=1 re-enables it) and produces the compiling ones freely.
-Not modelled (evidence `assumptions`): adjacent nested functions are mutually visible in Never;
-Src/Eval.v binds them sequentially; the generator never lets an earlier sibling use a name that a later
-adjacent sibling defines.
+Adjacent nested functions are mutually visible in Never and in Src/Eval.v (func_env): forward
+references, mutual recursion between siblings and a later sibling standing in for an outer function
+of the same name are generated (idiom id_siblings, weight sib_fwd); the renamings of uniq.ml bind a
+run of adjacent functions as a whole.
+"A function value keeps every captured variable": closures whose catch clause reads captured
+variables after an exception came up through frames with other environments (id_catchcap), and
+closures called as temporaries whose callee allocates (id_tempcall); the original additionally runs
+with VM heaps of 150 and 400 cells (default 20000) so that collections happen while the closure
+waits in a call — heap limit reached = skipped for that size, crash / other outcome = violation.
 """
 LEVEL = "proof"
 
@@ -31,6 +37,7 @@ from checks import c02 as c02mod
 
 CORPUS = os.path.join(common.VERIF, "corpus", "C08")
 PROFILES = ["shadow", "closure", "alias"]
+HEAPS = (150, 400)
 
 
 def run(ctx):
@@ -46,7 +53,7 @@ def run(ctx):
     shutil.rmtree(tmp, ignore_errors=True)
     n = 2100 if ctx.tier == "quick" else 27000
     r = evaldiff.run_evaldiff(ctx, PROFILES, n, ctx.tier, variants=("o", "u", "r"), nevrun=nevrun,
-                              shrink_max=2 if ctx.tier == "quick" else 4)
+                              shrink_max=2 if ctx.tier == "quick" else 4, heaps=HEAPS, heap_mode="all")
     c02mod.report_common(ctx, r, "evaldiff")
     seen = set()
     for c in sorted(r["c08"], key=lambda c: c["nodes"]):
@@ -71,7 +78,9 @@ def run(ctx):
     c02mod.evidence(ctx, r, "type-directed random programs of the profiles shadow (one name bound at every binder kind in nested "
                             "scopes, use after the inner scope closed), closure (counters shared by two closures, closures returned "
                             "and called after the definer returned, distinct activations, recursion through a captured name, "
-                            "closures over loop variables) and alias; each run as generated, uniquified and injectively renamed on the "
-                            "real compiler and compared with the evaluator (seed %d); evaluations = programs x 3 spellings; "
+                            "closures over loop variables, adjacent mutually visible nested functions, catch clauses reading "
+                            "captured variables, closures called as temporaries around an allocating callee) and alias; the original also "
+                            "with heaps of 150 and 400 cells; each run as generated, uniquified and injectively renamed on the "
+                            "real compiler and compared with the evaluator (seed %d); evaluations = programs x 3 spellings + small-heap runs; "
                             "non-trivial = the profile's mechanism occurs (>= 2 shadowing binders / an escaping closure is called / "
                             "an alias is written and read) and all four outcomes agree" % ctx.seed)
